@@ -98,6 +98,14 @@ class ExprMixin:
             raise EngineError(f"spec clause forks or raises: {ast.unparse(node)}")
         return r[0][1]
 
+    def spec_assume(self, text_or_node, st: State):
+        """spec_bool for a clause that is going to be *assumed* (positive position)."""
+        self._assuming = getattr(self, "_assuming", 0) + 1
+        try:
+            return self.spec_bool(text_or_node, st)
+        finally:
+            self._assuming -= 1
+
     # ------------------------------------------------------------------
     def truthy(self, v: SV):
         t = v.t
